@@ -99,7 +99,10 @@ def check_ports(arg):
 
 def check_protocols(arg):
     import cisco_acl
-    req, platform, protocol_nr = arg
+    req, platform, protocol_nr = arg[:3]
+    with_ports = len(arg) > 3 and arg[3]
+    if with_ports:
+        return check_protocols_ports(arg)
     fails = []
     want = request_set(req)
     try:
@@ -128,7 +131,39 @@ def check_protocols(arg):
     return fails, 1
 
 
+def check_protocols_ports(arg):
+    """template with port clauses: tcp/udp lines keep them (only the protocol differs), whatever was generated before them"""
+    import cisco_acl
+    req, platform, protocol_nr = arg[:3]
+    fails = []
+    want = request_set(req)
+    template = "permit tcp any eq 1024 any eq 8080"
+    inputs = dict(request=req, platform=platform, protocol_nr=protocol_nr, template=template)
+    try:
+        lines = cisco_acl.range_protocols(protocols=req, line=template, platform=platform, protocol_nr=protocol_nr)
+    except Exception as ex:
+        return [dict(key="bounded/range_protocols:error", what=f"{type(ex).__name__}: {ex}", inputs=inputs)], 1
+    got = set()
+    for l in lines:
+        try:
+            r = cisco_ref.read_ace(l, platform)
+        except cisco_ref.RefError as ex:
+            fails.append(dict(key="bounded/range_protocols:syntax", what=f"{l!r}: {ex}", inputs=inputs))
+            continue
+        got |= r.sem.proto if r.sem.proto is not None else {0}
+        if r.sem.proto is not None and r.sem.proto <= {6, 17} and (r.sem.sports, r.sem.dports) != (frozenset([1024]), frozenset([8080])):
+            fails.append(dict(key="bounded/range_protocols:other-field:ports", what=f"request {req!r}: {l!r} lost the port clauses of the template {template!r}",
+                              inputs=inputs, cmd=("import sys; sys.path.insert(0, 'props'); import C18\n"
+                                                  f"fails, _ = C18.check_protocols({arg!r})\nprint([f['what'] for f in fails]); sys.exit(1 if fails else 0)\n")))
+    if frozenset(got) != want:
+        fails.append(dict(key="bounded/range_protocols:set", what=f"request {req!r} generated protocols {sorted(got)[:10]}.., expected {sorted(want)[:10]}..", inputs=inputs))
+    return fails, 1
+
+
 def main(chk):
+    # deductive part: the request splitter under the range/eq policy (contracts/c_split.py)
+    chk.prove(["c_split"])
+    chk.replay_refuted()
     t0 = time.time()
     maxlen = 3 if chk.tier == "quick" else 4
     reqs = sorted({",".join(c) for n in range(1, maxlen + 1) for c in itertools.product(ELEMS, repeat=n)})
@@ -165,6 +200,7 @@ def main(chk):
     t0 = time.time()
     preqs = ["0", "1", "6", "17", "0-3", "1,6,17", "250-255", "1-3,6,47-51", "255", "41,89", "0-255"]
     cases = [(r, p, nr) for r in preqs for p in ("ios", "nxos") for nr in (False, True)]
+    cases += [(r, p, nr, True) for r in ["6", "17", "1,6", "1-6", "2-3,17", "6,17,47", "1,6,17", "6,1", "1-17"] for p in ("ios", "nxos") for nr in (False, True)]
     res = pmap(check_protocols, cases)
     viol = 0
     for fails, _ in res:
@@ -174,10 +210,13 @@ def main(chk):
     chk.add_bounded("range_protocols: one valid line per protocol, set == request", len(cases), len(cases), f"{len(preqs)} requests x platforms x protocol_nr", viol,
                     time.time() - t0, [list(cases[3])], exhaustive=False)
     chk.assumptions += ["requests are well-formed comma lists; netports.itcp/iip and vhelpers.vlist are dependencies (not verified)",
-                        "functions._split_range_for_ace is not under a deductive contract yet: bounded only"]
-    return chk.finish("other", "Bounded contract check of range_ports / range_protocols against a reference parse of the request and the independent reader "
-                      "(no deductive obligation: the chunking kernel works on text tokens and external helpers).",
-                      trusted_base=["spec/cisco_ref.py", "spec/portsem.py"])
+                        "functions._split_range_for_ace is proved for port_range=True over an abstract text model (comma tokens = ghost CSV_LEN/CSV_ARR, the assumed "
+                        "model of str.split(','); a single port = a decimal token, ISDIGIT; the only law used: ''.isdigit() is False); the port_range=False branch "
+                        "(netports.itcp, vhelpers flatten/to_multi) and the ACE construction in _range__port / range_protocols are bounded only"]
+    return chk.finish("other", "Deductive: functions._split_range_for_ace (range/eq policy): every chunk non-empty, request tokens only, every non-empty request token in "
+                      "some chunk, a range token alone in its chunk, no chunk longer than a positive ports-per-line limit (loop invariant over a list of lists). "
+                      "Bounded (labelled): range_ports / range_protocols end to end against a reference parse of the request and the independent reader.",
+                      trusted_base=["z3 5.1.0", "pyvc", "spec/cisco_ref.py", "spec/portsem.py"])
 
 
 if __name__ == "__main__":
